@@ -16,6 +16,7 @@ package hotkey
 
 import (
 	"sync"
+	"sync/atomic"
 )
 
 // Counter is used to record the actual visits number of keys.
@@ -29,6 +30,8 @@ type Counter struct {
 	freeCb   func()
 	items    map[string]*itemNode
 	freqHead *freqNode
+	// refs is the number of connections the collector has handed the counter to.
+	refs int32
 }
 
 // NewCounter creates a counter with given parameters.
@@ -140,6 +143,10 @@ func (c *Counter) evict() {
 func (c *Counter) Free() {
 	if c.freeCb != nil {
 		c.freeCb()
+	}
+	// another connection to the same backend is still counting with it.
+	if atomic.LoadInt32(&c.refs) > 0 {
+		return
 	}
 
 	c.mu.Lock()
